@@ -917,9 +917,10 @@ import xrun    # noqa: E402
 
 HAND_SPECS = [
     # operators whose names contain characters that are special in Go string literals / Printf formats
-    {"tokens": ["N"], "lits": ["'%'", "'\"'", "'+'"], "prec": [("left", ["'+'"]), ("left", ["'%'", "'\"'"])], "nts": ["E"], "start": "E",
+    {"tokens": ["N"], "lits": ["'%'", "'\"'", "'+'", "'<'", "'>'"], "prec": [("nonassoc", ["'<'", "'>'"]), ("left", ["'+'"]), ("left", ["'%'", "'\"'"])], "nts": ["E"], "start": "E",
      "rules": [{"lhs": "E", "rhs": ["E", "'+'", "E"], "prec": None}, {"lhs": "E", "rhs": ["E", "'%'", "E"], "prec": None},
-               {"lhs": "E", "rhs": ["E", "'\"'", "E"], "prec": None}, {"lhs": "E", "rhs": ["N"], "prec": None}]},
+               {"lhs": "E", "rhs": ["E", "'\"'", "E"], "prec": None}, {"lhs": "E", "rhs": ["E", "'<'", "E"], "prec": None},
+               {"lhs": "E", "rhs": ["E", "'>'", "E"], "prec": None}, {"lhs": "E", "rhs": ["N"], "prec": None}]},
     # literal tokens whose character occurs in yaccgo's internal name prefix `$operator`
     {"tokens": ["N"], "lits": ["'a'", "'t'", "'$'", "'o'"], "prec": [("left", ["'a'"]), ("left", ["'t'"])], "nts": ["E"], "start": "E",
      "rules": [{"lhs": "E", "rhs": ["E", "'a'", "E"], "prec": None}, {"lhs": "E", "rhs": ["E", "'t'", "E"], "prec": None},
@@ -2432,13 +2433,19 @@ def check_C14(tier):
 
     def one(job):
         si, oi, k, cmd = job
+        if k == 1:
+            # the output path already holds something longer (an earlier generation): the result must not depend on it
+            with open(cmd[-1], "w") as f:
+                f.write("// earlier output\n" * 20000)
         try:
             p = subprocess.run(cmd, stdout=subprocess.DEVNULL, stderr=subprocess.DEVNULL, timeout=60, cwd=work)
             rc = p.returncode
         except subprocess.TimeoutExpired:
             rc = -9
         try:
-            h = hashlib.sha256(open(cmd[-1], "rb").read()).hexdigest()
+            data = open(cmd[-1], "rb").read()
+            # a refused grammar leaves the earlier file as it is (that is C19's subject): no output of this run
+            h = None if (k == 1 and rc != 0 and data.startswith(b"// earlier output\n// earlier output\n")) else hashlib.sha256(data).hexdigest()
         except FileNotFoundError:
             h = None
         return (si, oi, k, rc, h)
@@ -2544,6 +2551,7 @@ def check_C18(tier):
     long_t, long_n = "END_OF_STATEMENT_SEPARATOR_TOKEN_SEMICOLON", "declaration_list_with_optional_trailing_separator_"
     cases.append({"id": "long:names", "kind": "hand", "src": "%%token %s ID\n%%start prog\n%%%%\nprog : %sa | %sb ;\n%sa : ID %s ;\n%sb : ID ID %s ;\n%%%%\n" % (
         long_t, long_n, long_n, long_n, long_t, long_n, long_t)})
+    cases.append({"id": "unicode:names", "kind": "hand", "src": "%token ЧИСЛО\n%left '×'\n%left '→'\n%start список\n%%\nсписок : список '→' élément | élément ;\nélément : élément '×' ЧИСЛО | ЧИСЛО ;\n%%\n"})
     safe = []
     for c in cases:
         # names that contain the renderer's own separators cannot be read back (DESIGN §5 C18)
@@ -2763,6 +2771,8 @@ def check_C19(tier):
     work = common.tmpdir("c19")
     cli = os.path.join(common.BIN, "yaccgo")
     failures = dict(C19_FAILURES)
+    big_epi = "\nfunc GetToken() {}\nvar table = []string{\n" + "".join("\t\"keyword_number_%d\",\n" % i for i in range(4000)) + "}\n// END OF EPILOGUE\n"
+    failures["large input (100 KiB epilogue)"] = "%token A\n%start S\n%%\nS : A ;\n%%" + big_epi
     # random failing texts: prefixes / edits of valid files that the front end rejects
     texts = c13_texts(tier, rng)
     rng.shuffle(texts)
